@@ -159,4 +159,27 @@ def opLefWTokens (args : List Sexp) : String :=
         else "unsupported"
   | _ => "bad-op"
 
+/-- text → library (reader model) → writer model → reader model again: the write→read loop of C05
+    entirely inside the models (the theorem `c05_read_write_read_partial` says this answers `ok #t`
+    whenever the extension data re-lexes to itself) -/
+def opLefWr (args : List Sexp) : String :=
+  match args with
+  | [a] => match L21.Driver.utf8Text? a with
+    | none => "bad-op"
+    | some cs =>
+      match Lef.tokens cs with
+      | none => "ok unreadable"
+      | some ts =>
+        if ts.all (fun t => t.tt != .number || numberInDomain t.txt) then
+          match Lef.parse cs with
+          | none => "ok unreadable"
+          | some l => match Lef.wLib l with
+            | none => "err-write"
+            | some toks =>
+              match Lef.libBody (toks.length + 1) ⟨58, 1⟩ {} toks with
+              | none => "err-reread"
+              | some l2 => if toString (sLib l2) == toString (sLib l) then "ok #t" else "ok #f"
+        else "unsupported"
+  | _ => "bad-op"
+
 end L21.Driver.LefP
